@@ -124,6 +124,8 @@ def curves_bounded(ctx):
     lo_, hi_ = min(a, b), max(a, b)
     if hi_ - lo_ > 1e-3:
         c = rng.uniform(lo_, hi_)
+        if lo_ < 0.0 < hi_ and rng.random() < 0.5:
+            c = 0.0     # a parameter that is exactly zero is a parameter like any other
         whole = curve.get_length(lo_, hi_)
         # spline/analytic lengths are chord approximations (through the defining points / 100 samples)
         # analytic lengths are chord approximations over 100 samples; the spline-interpolated length is a chord
@@ -144,6 +146,34 @@ def curves_bounded(ctx):
         if kind == "circle":
             rad = np.linalg.norm(curve.rim.position - curve.origin.position)
             ctx.prove("circle-length-is-radius-times-angle", abs(whole - rad * (hi_ - lo_)) <= 2e-3 * max(1.0, whole))
+    # a transformed curve is the same curve somewhere else: points at the same parameters are the images, lengths are kept
+    if kind in ("linear", "spline", "line", "circle"):
+        ts = [lo, lo + 0.37 * (hi - lo), hi]
+        before = [np.asarray(curve.get_point(t_), dtype=float) for t_ in ts]
+        len_before = curve.get_length(lo, hi)
+        ang, ax = rng.uniform(0.3, 2.5), np.array([rng.uniform(-1, 1), rng.uniform(-1, 1), rng.uniform(0.3, 1)])
+        org = np.array([rng.uniform(-2, 2) for _ in range(3)])
+        how = rng.choice(["rotate", "scale", "translate"])
+        if how == "rotate":
+            curve.rotate(ang, ax, org)
+            c_, s_ = math.cos(ang), math.sin(ang)
+            img = lambda x: org + G.rot(ax / np.linalg.norm(ax), c_, s_, x - org)
+            ratio = 1.0
+        elif how == "scale":
+            ratio = rng.uniform(0.5, 2)
+            curve.scale(ratio, org)
+            img = lambda x: org + (x - org) * ratio
+        else:
+            d_ = np.array([rng.uniform(-2, 2) for _ in range(3)])
+            curve.translate(d_)
+            img = lambda x: x + d_
+            ratio = 1.0
+        after = [np.asarray(curve.get_point(t_), dtype=float) for t_ in ts]
+        ctx.prove("transformed-curve-points-are-the-images", all(np.allclose(a_, np.asarray(img(b_), dtype=float), atol=1e-7 * (1 + np.abs(b_).max())) for a_, b_ in zip(after, before)), how=how)
+        ctx.prove("transformed-curve-length-scales-with-the-ratio", abs(curve.get_length(lo, hi) - ratio * len_before) <= 2e-3 * max(1.0, len_before), how=how)
+        if pts is not None:
+            ctx.prove("transformed-interpolated-curve-passes-through-the-images-of-its-points",
+                      all(np.allclose(curve.get_point(t_), np.asarray(img(p_), dtype=float), atol=1e-7 * (1 + np.abs(p_).max())) for t_, p_ in zip(curve.function.params, pts)), how=how)
     # closest parameter: at least as close as every densely sampled point (query near the curve, away from the ends)
     t0 = rng.uniform(lo + 0.15 * (hi - lo), hi - 0.15 * (hi - lo))
     q = np.asarray(curve.get_point(t0), dtype=float) + np.array([rng.uniform(-1, 1) for _ in range(3)]) * 0.02
